@@ -253,7 +253,7 @@ PROPS = {
     ),
     "C13": dict(
         modules=["GeomVerif.Properties.C13", "GeomVerif.Properties.C13Sub"],
-        n_quick=2500, n_thorough=60000, thorough_seeds=3, min_theorems=4,
+        n_quick=2500, n_thorough=60000, thorough_seeds=3, min_theorems=5,
         rule="every sequence of 1..4 points on the 3x3 integer grid (7380 inputs, exhaustive, each run; thorough: up to 5 points, 66429) + random "
              "multisets of 1..12, 45..56 and 51..200 points on grids 3/5/15/200/2^20 (collinear sets, many hull vertices with interior "
              "duplicates, random), stride 2..4 with identifying extra ordinates, through ConvexHullFlat or ConvexHull; plus the repaired D4 inputs. "
